@@ -914,7 +914,10 @@ func (r *Remote) addReferenceIfRefSpecMatches(rs config.RefSpec,
 		return nil
 	}
 
-	if forceWithLease != nil {
+	// A lease that names a reference protects only that reference; every
+	// other update is still subject to the ordinary rules.
+	if forceWithLease != nil &&
+		(forceWithLease.RefName.String() == "" || forceWithLease.RefName == cmd.Name) {
 		if err = r.checkForceWithLease(localRef, cmd, forceWithLease); err != nil {
 			return err
 		}
